@@ -302,6 +302,7 @@ pub struct Session {
     opaque_pending: bool,
     pub panicked: Option<String>,
     pub lsp: Option<LspServer>,
+    pub page: Option<crate::web::Pair>,
 }
 
 impl Default for Session {
@@ -312,6 +313,7 @@ impl Default for Session {
             opaque_pending: false,
             panicked: None,
             lsp: None,
+            page: None,
         }
     }
 }
@@ -369,6 +371,27 @@ impl Session {
             }
             ["fuel", _] => "ok".to_string(),
             ["fold", ..] => "SPEC".to_string(),
+            ["wnew", ..] => {
+                self.page = Some(crate::web::Pair::new());
+                "ok".to_string()
+            }
+            ["wseed", n] => {
+                let n: u64 = n.parse().unwrap();
+                self.page.get_or_insert_with(crate::web::Pair::new).seed(n);
+                "ok".to_string()
+            }
+            ["wload", rest @ ..] => {
+                let text = rest.first().and_then(|h| unhex(h)).unwrap_or_default();
+                let t2 = text.clone();
+                self.page.get_or_insert_with(crate::web::Pair::new).event(move |p| p.load_and_run(&text), move |p| p.load_and_run(&t2))
+            }
+            ["wsubmit", rest @ ..] => {
+                let text = rest.first().and_then(|h| unhex(h)).unwrap_or_default();
+                let t2 = text.clone();
+                self.page.get_or_insert_with(crate::web::Pair::new).event(move |p| p.submit(&text), move |p| p.submit(&t2))
+            }
+            ["wbreak"] => self.page.get_or_insert_with(crate::web::Pair::new).event(|p| p.break_now(), |p| p.break_now()),
+            ["wtick"] => self.page.get_or_insert_with(crate::web::Pair::new).event(|p| p.tick(), |p| p.tick()),
             ["cli", w, t, sk, h] => match unhex(h) {
                 Some(text) => cli_compare(*w == "1", *t == "1", *sk == "1", &text),
                 None => "bad-utf8".to_string(),
